@@ -981,13 +981,30 @@ class LinesBase(Prop):
         for seq in class_sequences(maxlen):
             r = random.Random(seq + str(rng.random()))
             yield {"kind": "lines", "lines": [render_class(r, c) for c in seq], "final_newline": r.random() < 0.5,
-                   "eol": r.choice(["\n", "\n", "\r\n"])}
+                   "eol": r.choice(["\n", "\n", "\r\n"]), "chunks": (r.randint(0, 10 ** 6) if r.random() < 0.3 else None)}
         for _ in range(600 if tier == "quick" else 20000):
             yield {"kind": "lines", "lines": gen_line_case(rng, tier), "final_newline": rng.random() < 0.5,
-                   "eol": rng.choice(["\n", "\n", "\r\n"])}
+                   "eol": rng.choice(["\n", "\n", "\r\n"]), "chunks": (rng.randint(0, 10 ** 6) if rng.random() < 0.3 else None)}
+        for _ in range(6 if tier == "quick" else 60):
+            # very long lines (several times 64 KiB): one physical line must stay one line
+            lines = gen_line_case(rng, tier)
+            n = rng.choice([65537, 140000, 200001, 300000])
+            long_line = rng.choice(["7" * n, "x" * n, "chain 0 " + "N" * n + " 9 + 0 9 b 9 + 0 9 1", rng.choice(HEADERS)[:-1] + "1" * n])
+            lines.insert(rng.randint(0, len(lines)), long_line)
+            yield {"kind": "lines", "lines": lines, "final_newline": rng.random() < 0.5, "eol": "\n"}
 
     def data(self, case):
         return ch.render_lines(case["lines"], case.get("eol", "\n"), case.get("final_newline", True))
+
+    def src(self, case):
+        """the byte source: one chunk, or (when the case carries a chunk seed) a random chunk schedule —
+        one byte at a time, or a few random cuts"""
+        data = self.data(case)
+        seed = case.get("chunks")
+        if seed is None or len(data) > 3000:
+            return ch.src_one(data)
+        r = random.Random(seed)
+        return ch.src_events(r.choice(ch.chunkings(r, data, k=3)))
 
     def shrink(self, case):
         for k in range(len(case["lines"])):
@@ -997,6 +1014,10 @@ class LinesBase(Prop):
         if case.get("eol") != "\n":
             c = copy.deepcopy(case)
             c["eol"] = "\n"
+            yield c
+        if case.get("chunks") is not None:
+            c = copy.deepcopy(case)
+            c["chunks"] = None
             yield c
 
     def neighbours(self, case, rng):
@@ -1030,7 +1051,7 @@ class C05(LinesBase):
     title = "Section iterator conforms to the chain-file line grammar up to the first error"
     rule = ("every sequence over {blank, header, non-terminating data, terminating data, unparsable} of length <= 5 (quick) / <= 7 "
             "(thorough), each rendered with varying concrete records, LF/CRLF, with/without final newline, plus random longer multi-"
-            "section streams; the iterator is driven to exhaustion (cap 4*lines+8); judge = the specification-level parser "
+            "section streams; 30% of the streams are delivered through a random chunk schedule (one byte at a time or a few cuts); the iterator is driven to exhaustion (cap 4*lines+8); judge = the specification-level parser "
             "(Lean `specSecs`, proved equal to the grammar `Parses`): items up to and including the first error must be equal; "
             "sections yielded after an error must be runs of consecutive input lines; non-trivial = >= 2 sections or an error "
             "not in first position; distinct by stream")
@@ -1042,13 +1063,15 @@ class C05(LinesBase):
         ev = Eval()
         data = self.data(case)
         n = len(case["lines"])
-        req = "sections %s %d" % (ch.src_one(data), 4 * n + 8)
+        req = "sections %s %d" % (self.src(case), 4 * n + 8)
         i, m = both(ctx, ev, req)
         ii, mm = i.split(" ; "), m.split(" ; ")
         if norm_sec_items(ii) != norm_sec_items(mm):
             ev.corr = "impl %r vs model %r" % (i[:300], m[:300])
         s = ctx.model.ask("spec secs " + ch.src_one(data))
         ev.requests.append("spec secs " + ch.src_one(data))
+        if case.get("chunks") is not None:
+            ev.tags.append("chunked")
         ss = s.split(" ; ")
         if i.startswith("panic") or i == "abort":
             ev.judge = "panic"
@@ -1120,7 +1143,7 @@ class C07(LinesBase):
             data = self.data(case)
             n = len(case["lines"])
             cap = 4 * n + 8
-            i, m = both(ctx, ev, "sections %s %d" % (ch.src_one(data), cap))
+            i, m = both(ctx, ev, "sections %s %d" % (self.src(case), cap))
             ii, mm = i.split(" ; "), m.split(" ; ")
             obs = lambda xs: (xs[-1], len(xs) - 1 <= n + 1)
             if obs(ii) != obs(mm):
@@ -1129,7 +1152,7 @@ class C07(LinesBase):
                 ev.judge = "section iterator did not end within %d calls (%d lines): ...%s" % (cap, n, " ; ".join(ii[-3:]))
             elif len(ii) - 1 > n + 1:
                 ev.judge = "section iterator yielded %d items for %d lines" % (len(ii) - 1, n)
-            i2, m2 = both(ctx, ev, "lines %s" % ch.src_one(data))
+            i2, m2 = both(ctx, ev, "lines %s" % self.src(case))
             l2 = i2.split(" ; ")
             if l2[-1] != "eof" or len(l2) - 1 > n:
                 ev.judge = "lines() yielded %d items for %d lines / did not end" % (len(l2) - 1, n)
@@ -1595,6 +1618,12 @@ class C08(Prop):
                             ev.judge = "a failing read at position %d did not surface from sections(): %s" % (k, i2[:200])
                         if "panic" in i or "panic" in i2:
                             ev.judge = "panic after a failing read at position %d" % k
+                        # never a silently shortened / altered section: whatever sections the iterator still
+                        # yields around the failure must be sections of the file
+                        good = set(x for x in base_s.split(" ; ") if x.startswith("S "))
+                        for x in i2.split(" ; "):
+                            if x.startswith("S ") and x not in good:
+                                ev.judge = "after a failing read at position %d the iterator yielded a section that is not in the file: %s" % (k, x[:200])
                     ev.tags.append("fault:" + kind)
                     if kind != "i" and k == len(events):
                         # a failure after the last byte: still the error of the call in progress (end of input
